@@ -51,6 +51,13 @@ def isolated_edge(A):
     return False
 
 
+def length_absorbed(A):
+    """some connection length is lost when added to another one (a + b == b for positive a < b, e.g. 1e-300 next to 1): the
+    Dijkstra loops of the weighted betweenness routines then see zero-length steps"""
+    v = np.unique(A[A > 0])
+    return bool(len(v) > 1 and v[-1] + v[0] == v[-1])
+
+
 def top_simple(A):
     """is the largest eigenvalue of the symmetric matrix A simple?"""
     if len(A) < 2:
@@ -60,6 +67,19 @@ def top_simple(A):
 
 
 # --------------------------------------------------------------------------- measures
+# (quick, thorough) size caps; everything not listed is whole-matrix algebra and runs up to the 257..300 case
+_MED = (129, 129)
+SIZE_CAPS = {'clustering_coef_wu_sign:zhang': (40, 65), 'clustering_coef_wu_sign:costantini': (40, 65),
+             'efficiency_wei:local': (34, 65), 'efficiency_wei:original': (34, 65),
+             'distance_wei': _MED, 'distance_wei_floyd': _MED, 'breadthdist': _MED, 'charpath:of distance_wei, finite only': _MED,
+             'efficiency_wei:global': _MED, 'efficiency_bin:local': _MED, 'betweenness_wei': _MED, 'edge_betweenness_bin': _MED,
+             'edge_betweenness_wei': _MED, 'flow_coef_bd': _MED, 'kcoreness_centrality_bu': _MED, 'kcoreness_centrality_bd': _MED,
+             'matching_ind': _MED, 'matching_ind_und': _MED, 'gtom:nr_steps=3': _MED, 'gtom:nr_steps=4': _MED,
+             'edge_nei_overlap_bu': _MED, 'edge_nei_overlap_bd': _MED, 'get_components': _MED}
+SIZES = (12, 16, 17, 24, 32, 33, 34, 40, 64, 65, 100, 129)
+STRUCTURES = ('chain', 'dense', 'disconnected', 'modules', 'node0-unreachable')
+
+
 class M:
     """fn(bct, A, ci) -> tuple of outputs; outs = ((label, kind, exact), ...)
     kind: v per-node vector | m per-pair matrix | s scalar | d distribution/array that must be unchanged |
@@ -72,6 +92,8 @@ class M:
         # (exception kind, predicate on the graph): the only in-domain exception that follows from the routine's own code;
         # any other exception on an in-domain input is a violation, whether or not both numberings raise it
         self.legit_raise = legit_raise
+        # largest n of the size family in the (quick, thorough) tier: python-level O(n^3) loops are capped lower
+        self.nmax = SIZE_CAPS.get(self.name + (':' + variant if variant else ''), SIZE_CAPS.get(name, (300, 300)))
         self.uses_ci = uses_ci      # the measure reads the per-node input ci (else results are cached per labelled graph)
         self.cond = cond or {}
         self.key = name + (':' + variant if variant else '')
@@ -145,9 +167,11 @@ def build_measures():
     add('efficiency_wei', 'wd', lambda b, A, ci: (b.efficiency_wei(A, local='original'),), (('Eloc', V, AP),), variant='original')
     # ---- centrality.py
     add('betweenness_bin', 'bd', lambda b, A, ci: (b.betweenness_bin(A),), (('BC', V, AP),))
-    add('betweenness_wei', 'wd', lambda b, A, ci: (b.betweenness_wei(A),), (('BC', V, AP),))
+    add('betweenness_wei', 'wd', lambda b, A, ci: (b.betweenness_wei(A),), (('BC', V, AP),),
+        cond_fn=lambda A: {'length_absorbed': length_absorbed(A)})
     add('edge_betweenness_bin', 'bd', lambda b, A, ci: b.edge_betweenness_bin(A), (('EBC', MM, AP), ('BC', V, AP)))
-    add('edge_betweenness_wei', 'wd', lambda b, A, ci: b.edge_betweenness_wei(A), (('EBC', MM, AP), ('BC', V, AP)))
+    add('edge_betweenness_wei', 'wd', lambda b, A, ci: b.edge_betweenness_wei(A), (('EBC', MM, AP), ('BC', V, AP)),
+        cond_fn=lambda A: {'length_absorbed': length_absorbed(A)})
     add('pagerank_centrality', 'wd', lambda b, A, ci: (b.pagerank_centrality(A, 0.85),), (('r', V, AP),), variant='uniform')
     add('pagerank_centrality', 'wd', lambda b, A, ci: (b.pagerank_centrality(A, 0.5, falff=np.asarray(ci, float) + 1.0),), (('r', V, AP),), variant='falff', uses_ci=True)
     # documented domain: any undirected matrix; "the eigenvector of the largest eigenvalue" is unique only when that eigenvalue is simple
@@ -303,6 +327,9 @@ def graph_class(A):
 def ci_of(A):
     """community labels attached to the nodes (an input that is renumbered together with the graph); non-contiguous on purpose"""
     n = len(A)
+    if n >= 34:         # more than 32 modules (33 for n = 34, 37 from n = 38 on), labels not contiguous
+        k = min(37, n - 1)
+        return np.array([((5 * i + 2) % k) * 3 + 1 for i in range(n)])
     return np.array([(3 * i + 1) % 4 * 2 + 3 for i in range(n)]) if n > 2 else np.array([5, 3][:n])
 
 
@@ -356,7 +383,7 @@ def pick_rep(m, A):
 
 def evaluate(m, A, ci, rep=None):
     """('ok', outputs) | ('exc', kind) | ('timeout', None)"""
-    st, v = call(m.fn, bct_mod(), rep_apply(rep, A), ci.copy(), t=m.t, retry=10)
+    st, v = call(m.fn, bct_mod(), rep_apply(rep, A), ci.copy(), t=m.t * (1 + (len(A) // 32) ** 2), retry=10)
     if st == 'ok':
         if not isinstance(v, tuple):
             v = (v,)
@@ -511,7 +538,7 @@ class Runner:
         if not exh and self.forced_rep is None and h % 3 == 0:
             # history: a sibling variant (another option of the same routine first, else another routine of the same source file)
             # runs on a same-size input right before the call under test; its result is not judged here
-            sib = [x for x in siblings(m) if graph_class(A) in ACCEPT[x.dom] and (x.need is None or x.need(A))]
+            sib = [x for x in siblings(m) if graph_class(A) in ACCEPT[x.dom] and (x.need is None or x.need(A)) and len(A) <= x.nmax[0]]
             if sib:
                 x = sib[(h // 3) % min(len(sib), 4)]
                 B = A[np.ix_(plist[-1], plist[-1])]
@@ -540,7 +567,7 @@ class Runner:
             if len(res['viol']) > nv:
                 res['viol'][-1]['detail']['worker_history'] = trail
             if not (Ap == A).all():        # non-trivial: the renumbering changes the matrix (p is not an automorphism)
-                self.seen.add(int.from_bytes(hashlib.blake2b(self.mkey + bytes([len(A)]) + A.tobytes() + np.asarray(p, np.uint8).tobytes(),
+                self.seen.add(int.from_bytes(hashlib.blake2b(self.mkey + len(A).to_bytes(2, 'little') + A.tobytes() + np.asarray(p, np.uint16).tobytes(),
                                                              digest_size=8).digest(), 'little'))
             if res['sample'] is None and base[0] == 'ok' and has_edge(A) and not (Ap == A).all() and len(res['viol']) == nv:
                 res['sample'] = {'measure': m.key, 'A': A.tolist(), 'p': [int(t) for t in p],
@@ -795,6 +822,11 @@ def structured_graphs():
 
 PATH_MEASURES = {'betweenness_wei', 'edge_betweenness_wei', 'distance_wei', 'distance_wei_floyd', 'efficiency_wei', 'charpath'}
 FAMILY_ONLY = {'neartie': PATH_MEASURES, 'neartie-inv': {'efficiency_wei'}}
+# self-loops are outside the documented domain of the path / neighbourhood routines (BCT convention: empty diagonal; e.g. `breadth`
+# reports the neighbours of a self-looped source at distance 1 or 2 depending on the visiting order)
+FAMILY_EXCLUDE = {'special-selfloop': {'breadthdist', 'reachdist', 'distance_bin', 'distance_wei', 'distance_wei_floyd', 'charpath',
+                                       'efficiency_bin', 'efficiency_wei', 'betweenness_bin', 'betweenness_wei', 'edge_betweenness_bin',
+                                       'edge_betweenness_wei', 'flow_coef_bd', 'edge_nei_overlap_bu', 'edge_nei_overlap_bd'}}
 
 
 def neartie_graphs(rs, count):
@@ -846,6 +878,122 @@ def neartie_graphs(rs, count):
     return out
 
 
+def size_graph(rs, n, cls, structure):
+    """one graph of class cls (b/w/s x u/d) on n nodes with the given structure (see STRUCTURES)"""
+    und = cls[1] == 'u'
+    A = np.zeros((n, n))
+
+    def w():
+        if cls[0] == 'b':
+            return 1.0
+        v = float(rs.randint(1, 5))
+        return -v if cls[0] == 's' and rs.rand() < .3 else v
+
+    def edge(i, j, both=False):
+        if i == j:
+            return
+        A[i, j] = w()
+        if und:
+            A[j, i] = A[i, j]
+        elif both:
+            A[j, i] = w()
+    if structure == 'chain':                 # a long path through all nodes in a shuffled order, a few chords
+        q = rs.permutation(n)
+        for a, b in zip(q[:-1], q[1:]):
+            edge(a, b)
+        for _ in range(max(1, n // 16)):
+            edge(*rs.randint(0, n, size=2))
+    elif structure == 'dense':
+        dens = .5 if n <= 65 else (.15 if n <= 129 else .05)
+        M_ = rs.rand(n, n) < dens
+        for i, j in zip(*np.nonzero(M_)):
+            if (not und) or i < j:
+                edge(i, j)
+    elif structure == 'disconnected':        # three components of different kinds, isolated nodes, node 0 isolated
+        q = [int(x) for x in rs.permutation(np.arange(1, n))]
+        k = max(2, (n - 3) // 3)
+        c1, c2, c3 = q[:k], q[k:2 * k], q[2 * k:n - 3]
+        for a, b in zip(c1[:-1], c1[1:]):
+            edge(a, b, both=True)                                  # a path
+        for a, b in zip(c2, c2[1:] + c2[:1]):
+            edge(a, b)                                             # a (directed) cycle
+        for a in c3:
+            for b in c3:
+                if a < b and rs.rand() < .4:
+                    edge(a, b, both=rs.rand() < .5)                # a random blob
+    elif structure == 'modules':             # a ring of small cliques: n/3 (> 32 from n = 100 on) tightly knit modules
+        q = [int(x) for x in rs.permutation(n)]
+        blocks = [q[o:o + 3] for o in range(0, n, 3)]
+        for blk in blocks:
+            for a in blk:
+                for b in blk:
+                    if a < b:
+                        edge(a, b, both=True)
+        for b1, b2 in zip(blocks, blocks[1:] + blocks[:1]):
+            edge(b1[0], b2[-1])
+    else:                                    # node 0 cannot be reached (directed: only out-edges; undirected: isolated), one sink
+        q = [int(x) for x in rs.permutation(np.arange(1, n))]
+        for a, b in zip(q[:-1], q[1:]):
+            edge(a, b)
+        for _ in range(n // 4):
+            a, b = rs.randint(1, n, size=2)
+            edge(int(a), int(b))
+        if not und:
+            for b in q[:3]:
+                A[0, b] = w()
+            A[q[-1], :] = 0                  # sink
+    np.fill_diagonal(A, 0)
+    if cls[0] == 's' and not (A < 0).any() and n > 2:
+        i, j = np.argwhere(A != 0)[0]
+        A[i, j] = -abs(A[i, j])
+        if und:
+            A[j, i] = A[i, j]
+    return A
+
+
+def size_family(rs, tier):
+    """the size axis: for every class and every n of SIZES (+ one 257..300 case) one graph per structure (thorough) / a rotating
+    structure (quick: `build_batches` keeps one structure per (variant, size)); one random permutation (thorough: two)"""
+    lst = []
+    big = int(rs.randint(257, 301))
+    for si, n in enumerate(SIZES + (big,)):
+        for ci_, cls in enumerate(('bu', 'bd', 'wu', 'wd', 'su')):
+            for ti, st in enumerate(STRUCTURES):
+                A = size_graph(rs, n, cls, st)
+                ps = [rs.permutation(n).tolist() for _ in range(1 if tier == 'quick' else 2)]
+                lst.append((A.tolist(), ps, {'n': n, 'cls': cls, 'structure': ti, 'size_index': si}))
+    return lst
+
+
+def special_family(rs, tier):
+    """special values where the routines' domains allow them: -0.0 in place of absent connections (every measure), tiny weights
+    1e-300 and weights in (0, 1] whose maximum is exactly 1.0 (weighted measures), self-loops (BCT's convention is an empty
+    diagonal, but a renumbering maps the diagonal to itself, so every routine must still be equivariant)"""
+    lst = []
+    for c in range(8 if tier == 'quick' else 48):
+        n = int(rs.randint(5, 9))
+        kind = c % 4
+        cls = ('bu', 'bd', 'wu', 'wd')[c % 4 if kind in (0, 3) else 2 + c % 2]
+        A = rand_graph(rs, n, rs.choice([.3, .6]), cls[1] == 'd', wmax=1 if cls[0] == 'b' else 4)
+        if kind == 0:                          # negative zeros
+            Z = (A == 0) & (rs.rand(n, n) < .5)
+            if cls[1] == 'u':
+                Z = np.triu(Z, 1); Z = Z | Z.T
+            A = np.where(Z, -0.0, A)
+        elif kind == 1:                        # some tiny weights
+            T = (A != 0) & (rs.rand(n, n) < .4)
+            if cls[1] == 'u':
+                T = np.triu(T, 1); T = T | T.T
+            A = np.where(T, 1e-300, A)
+        elif kind == 2:                        # weights k/4 with maximum exactly 1.0
+            A = A / 4.0
+        else:                                  # self-loops
+            for i in rs.choice(n, size=2, replace=False):
+                A[i, i] = 1.0 if cls[0] == 'b' else float(rs.randint(1, 4))
+        lst.append((A.tolist(), [rs.permutation(n).tolist() for _ in range(3)], kind == 3))
+    return lst
+
+
 def gen_families(rs, tier):
     """-> list of (family name, payload description) ; payloads are measure independent"""
     fams = []
@@ -894,6 +1042,12 @@ def gen_families(rs, tier):
         put(lst, A, ps)
     put(lst, D17_WITNESS['A'], [D17_WITNESS['p']] + ([] if quick else [rs.permutation(5).tolist() for _ in range(10)]))
     fams.append(('structured', lst))
+    fams.append(('size', size_family(rs, tier)))
+    lst, lsts = [], []
+    for A, ps, selfloop in special_family(rs, tier):
+        put(lsts if selfloop else lst, A, ps)
+    fams.append(('special', lst))
+    fams.append(('special-selfloop', lsts))
     # near ties in path lengths (dyadic, exact in floats) x all n! permutations; the elementwise inverses for efficiency_wei
     lst, lsti = [], []
     for A in neartie_graphs(rs, 8 if quick else 60):
@@ -943,7 +1097,10 @@ def gen_families(rs, tier):
     return fams
 
 
-def build_batches(rs, fams, only=None, forced_rep=None, history=None):
+SIZE_CLASS = {'bu': 'bu', 'bd': 'bd', 'wu': 'wu', 'wd': 'wd', 'su': 'su', 'sd': 'su'}
+
+
+def build_batches(rs, fams, only=None, forced_rep=None, history=None, tier='quick'):
     """work for the pool: batches that mix measures (group of 4 variants taking turns per graph for the exhaustive families;
     for the list families single (variant, graph) units of all variants, families and sizes shuffled together)"""
     batches, units = [], []
@@ -962,10 +1119,28 @@ def build_batches(rs, fams, only=None, forced_rep=None, history=None):
             else:
                 if fam in FAMILY_ONLY and m.name not in FAMILY_ONLY[fam]:
                     continue
+                if fam in FAMILY_EXCLUDE and m.name in FAMILY_EXCLUDE[fam]:
+                    continue
                 cls = None
                 if fam.startswith('n5-all120-') or fam.startswith('rand-') and not fam.startswith('rand-connected'):
                     cls = fam.rsplit('-', 1)[1]
                 if cls is not None and cls not in ACCEPT[m.dom]:
+                    continue
+                if fam == 'size':
+                    cap = m.nmax[0 if tier == 'quick' else 1]
+                    for A, ps, info in payload:
+                        if info['cls'] not in ACCEPT[m.dom] or info['cls'] != SIZE_CLASS[m.dom] or info['n'] > cap:
+                            continue
+                        if m.need is not None and not m.need(np.array(A)):
+                            continue
+                        # quick: one structure per (variant, size), rotating; python-loop routines get the sparse ones above 65 nodes
+                        if tier == 'quick' and info['structure'] != (mi + info['size_index']) % len(STRUCTURES):
+                            continue
+                        if tier == 'quick' and info['n'] in ((16, 32, 64) if mi % 2 else (17, 33, 65)):
+                            continue            # "16/17, 32/33, 64/65": one of each pair per variant, the other one for its neighbour
+                        if info['structure'] == 1 and info['n'] > 65 and m.nmax[1] <= 129:
+                            continue
+                        units.append((mi, fam, A, ps))
                     continue
                 for A, ps in payload:
                     units.append((mi, fam, A, ps))
@@ -980,7 +1155,7 @@ def build_batches(rs, fams, only=None, forced_rep=None, history=None):
     cur, cost = [], 0
     for i in order:
         u = units[int(i)]
-        cur.append(u); cost += len(u[3])
+        cur.append(u); cost += len(u[3]) * (1 + (len(u[2]) // 16) ** 2)
         if cost >= 1500:
             batches.append({'kind': 'list', 'units': cur, 'cost': cost}); cur, cost = [], 0
     if cur:
@@ -1059,7 +1234,7 @@ def main():
     if ck.replay:
         batches = build_batches(ck.rs, fams, only, forced_rep=replay_rep, history=rp['case'].get('worker_history'))
     else:
-        batches = build_batches(ck.rs, fams, only)
+        batches = build_batches(ck.rs, fams, only, tier=ck.tier)
     t_ = time.time()
     results = [r for rl in pmap1(run_batch, batches) for r in rl]
     ck.dist['search_s'] = round(time.time() - t_, 1)
